@@ -5424,3 +5424,19 @@ T('C14', 'twin-userid-fallback-flag-first', PK, "            self.uid = uid_byte
 M('C20', 'new-contents-by-reference', PGP, "            lit._contents = bytearray(msg.text_to_bytes(message))\n", "            lit._contents = msg.text_to_bytes(message)\n", 'C20.6')
 T('C20', 'twin-new-contents-temporary-copy', PGP, "            lit._contents = bytearray(msg.text_to_bytes(message))\n", "            octets = msg.text_to_bytes(message)\n            lit._contents = bytearray(octets)\n")
 M('C20', 'new-contents-charset-hint', PGP, "            lit._contents = bytearray(msg.text_to_bytes(message))\n", "            lit._contents = bytearray(msg.text_to_bytes(message).decode('utf-8').encode(charset or 'utf-8')) if charset else bytearray(msg.text_to_bytes(message))\n", 'C20.6')
+# wave 6: literal text codec on the signed-data path, rejection on re-encoded sizes, verdict without own hash
+M('C02', 'literal-contents-utf8-sig', PK, "            return self._contents.decode('utf-8')", "            return self._contents.decode('utf-8-sig')", 'C02.8')
+M('C02', 'literal-contents-utf8-ignore-errors-latin', PK, "            return self._contents.decode('utf-8')", "            return self._contents.decode('utf-16')", 'C02.8')
+T('C02', 'twin-literal-contents-codec-spelling', PK, "            return self._contents.decode('utf-8')", "            raw = self._contents\n            return raw.decode('UTF-8')")
+_UHLOOP = "        while plen - len(packet) < uhl:\n            sp = SignatureSP(packet)\n            self[sp.__class__.__name__] = sp\n"
+M('C05', 'parse-rejects-on-reencoded-area-size', FL, _UHLOOP, _UHLOOP + "\n        if sum(len(sp) for sp in self._hashed_sp.values()) != hl or sum(len(sp) for sp in self._unhashed_sp.values()) != uhl:\n            raise PGPError(\"Signature subpackets do not add up to the announced length of their area\")\n", 'C05.1')
+M('C05', 'parse-rejects-on-reserialised-capture-length', FL, "        self._hashed_raw = hashed_raw\n", "        self._hashed_raw = hashed_raw\n        if sum(len(s.__bytearray__()) for s in self._hashed_sp.values()) != hl:\n            raise PGPError(\"non-canonical hashed subpacket area\")\n", 'C05.1')
+T('C05', 'twin-parse-warns-on-reencoded-area-size', FL, _UHLOOP, _UHLOOP + "\n        if sum(len(sp) for sp in self._unhashed_sp.values()) != uhl:\n            warnings.warn(\"non-minimal subpacket length encoding\")\n")
+T('C05', 'twin-parse-rejects-on-received-length-only', FL, "        hl = self.bytes_to_int(packet[:2])\n        hashed_raw = packet[:2 + hl]", "        hl = self.bytes_to_int(packet[:2])\n        if hl > len(packet) - 2:\n            raise PGPError(\"hashed subpacket area runs past the end of the packet\")\n        hashed_raw = packet[:2 + hl]")
+_VER = "                    sigv.add_sigsubj(sig, self, subj, SecurityIssues.WrongSig if not verified else SecurityIssues.OK)\n"
+M('C05', 'verify-verdict-cache-by-signature-value', PGP, "                if issues and issues.causes_signature_verify_to_fail:\n                    sigv.add_sigsubj(sig, self, subj, issues)\n                else:\n",
+  "                if issues and issues.causes_signature_verify_to_fail:\n                    sigv.add_sigsubj(sig, self, subj, issues)\n                elif (id(subj), sig.signer, bytes(sig.__sig__)) in self._verdicts:\n                    sigv.add_sigsubj(sig, self, subj, self._verdicts[(id(subj), sig.signer, bytes(sig.__sig__))])\n                else:\n", 'C05.4',
+  more=[(PGP, _VER, "                    self._verdicts[(id(subj), sig.signer, bytes(sig.__sig__))] = SecurityIssues.WrongSig if not verified else SecurityIssues.OK\n" + _VER)])
+M('C05', 'verify-verdict-ok-without-hash-for-own-key', PGP, "                if issues and issues.causes_signature_verify_to_fail:\n                    sigv.add_sigsubj(sig, self, subj, issues)\n                else:\n",
+  "                if issues and issues.causes_signature_verify_to_fail:\n                    sigv.add_sigsubj(sig, self, subj, issues)\n                elif subj is self and sig.signer == self.fingerprint.keyid and self._self_verified:\n                    sigv.add_sigsubj(sig, self, subj, SecurityIssues.OK)\n                else:\n", 'C05.4')
+T('C05', 'twin-verify-hashdata-temp', PGP, "                    verified = self._key.verify(sig.hashdata(subj), sig.__sig__, getattr(hashes, sig.hash_algorithm.name)())", "                    tbs = sig.hashdata(subj)\n                    hash_object = getattr(hashes, sig.hash_algorithm.name)()\n                    verified = self._key.verify(tbs, sig.__sig__, hash_object)")
